@@ -8,11 +8,13 @@ CONSTANTS
   Banned = {}
   Asking = {"a2"}
   AskAnswersInHand = TRUE
+  DrainAfterStopped = TRUE
+  FilteredFailAnswers = FALSE
   BufCap = 1
   FixFlushOnStop = TRUE
   MaxResets = 1
   WithStop = FALSE
   Det = FALSE
-INVARIANTS TypeOK AtMostOnce NoLostRequest NoStuckSender PairingFIFO
+INVARIANTS TypeOK AtMostOnce NoLostRequest NoStuckSender PairingFIFO OwnReply
 PROPERTIES Answered QuitLeadsToDone StopReturns
 CHECK_DEADLOCK FALSE
